@@ -76,15 +76,15 @@ impl ExclusiveExtractor for MultipartBody {
                     format!("invalid content type: {}", e),
                 )
             })?;
-        // The boundary is the string after the "boundary=" part of the
-        // content-type header.
-        let boundary =
-            content_type.split("boundary=").nth(1).ok_or_else(|| {
-                HttpError::for_bad_request(
-                    None,
-                    "missing boundary in content-type header".to_string(),
-                )
-            })?;
+        // The boundary is the value of the "boundary" parameter of the
+        // content-type header.  It may be quoted and may be followed by other
+        // parameters (RFC 2046 section 5.1.1).
+        let boundary = multer::parse_boundary(content_type).map_err(|_| {
+            HttpError::for_bad_request(
+                None,
+                "missing boundary in content-type header".to_string(),
+            )
+        })?;
         Ok(MultipartBody {
             content: multer::Multipart::new(
                 body.into_data_stream(),
